@@ -233,7 +233,7 @@ def judge(tagged, work, verdict, pred_hits):
 def run_mc(tier, configs, out, errs):
     try:
         for name, kw in configs:
-            r = vf.tlc_mc("ReplDiffMC", "mc.cfg", files={"mc.cfg": cfg_text("mc", **kw)}, timeout=2400, heap="8g",
+            r = vf.tlc_mc("ReplDiffMC", "mc.cfg", files={"mc.cfg": cfg_text("mc", **kw)}, timeout=3600, heap="8g",
                           workers=min(8 if tier == "thorough" else 4, vf.NCPU), coverage=(tier == "thorough"))
             out.append({"config": name, "constants": {k: (list(v) if isinstance(v, tuple) else v) for k, v in kw.items()},
                         "distinct": r.distinct, "generated": r.generated, "depth": r.depth, "wall_s": round(r.wall, 1),
